@@ -66,20 +66,64 @@ Theorem C11_conv_monotone_signed_on_unsigned_nonneg : forall bits st, (0 < bits)
 Proof. exact conv_monotone_signed_on_unsigned_nonneg. Qed.
 Print Assumptions C11_conv_monotone_signed_on_unsigned_nonneg.
 
-(* REFUTED without the side condition (DESIGN §5-29): deprecated, signed-order statistics of a
-   UINT_32 row group {1, 3000000000, 7}: valid statistics, the group is pruned for `a = 1`, and
-   it contains 1 *)
-Theorem C11_prune_sound_unconditional_refuted :
-  exists lt o st cs vs cell,
-    should_prune lt st cs = Ok true /\ stats_describe o st vs /\ In cell vs /\ passes lt cell cs.
-Proof. exact prune_sound_unconditional_refuted. Qed.
-Print Assumptions C11_prune_sound_unconditional_refuted.
+(* ---- after the repair f11c5d40d (`if min > max { return Ok(false) }` on the converted bounds) ---- *)
+(* same-width conversions (Int32/UInt32 in INT32, Int64/UInt64 in INT64), statistics in the signed OR the
+   unsigned order of that width (deprecated fields / min_value,max_value), bounds and values native
+   i32 / i64 numbers: NO side condition about the conversion is left *)
+Theorem C11_prune_sound_same_width : forall lt pb o st cs vs,
+  (0 < pb)%Z -> lt_bits lt = pb -> order_of_width pb o ->
+  stats_native pb st -> (forall w, In (Some w) vs -> native pb w) ->
+  should_prune lt st cs = Ok true ->
+  stats_describe o st vs ->
+  forall cell, In cell vs -> ~ passes lt cell cs.
+Proof. exact prune_sound_same_width. Qed.
+Print Assumptions C11_prune_sound_same_width.
 
-Theorem C11_w29_from_thrift_and_not_monotone :
+Theorem C11_prune_sound_same_width_hyps_sat :
+  should_prune u32 st_ex_u [CVal (KInt u32) 7] = Ok true /\ stats_native 32 st_ex_u /\
+  stats_describe OSigned st_ex_u [Some (-1294967296)%Z; Some (-5)%Z].
+Proof. exact prune_sound_same_width_hyps_sat. Qed.
+Print Assumptions C11_prune_sound_same_width_hyps_sat.
+
+(* narrowing conversions (INT32 physical -> Int8/Int16/UInt8/UInt16): the one remaining hypothesis is
+   that the statistics' bounds lie in the range of the logical type (stats_in_lrange) ... *)
+Theorem C11_prune_sound_bounds_in_lrange : forall lt st cs vs,
+  (0 < lt_bits lt)%Z -> stats_in_lrange lt st ->
+  should_prune lt st cs = Ok true ->
+  stats_describe OSigned st vs ->
+  forall cell, In cell vs -> ~ passes lt cell cs.
+Proof. exact prune_sound_bounds_in_lrange. Qed.
+Print Assumptions C11_prune_sound_bounds_in_lrange.
+
+(* ... and it is needed: INT_8 in INT32 with the (widened) bounds 0 / 300: 300 as i8 is 44, the guard
+   passes, `a = 100` prunes the group that holds 100 *)
+Theorem C11_prune_sound_narrowing_needs_range_refuted :
+  exists lt pb o st cs vs cell,
+    (0 < pb)%Z /\ order_of_width pb o /\ stats_native pb st /\ (forall w, In (Some w) vs -> native pb w) /\
+    should_prune lt st cs = Ok true /\ stats_describe o st vs /\ In cell vs /\ passes lt cell cs.
+Proof. exact prune_sound_narrowing_needs_range_refuted. Qed.
+Print Assumptions C11_prune_sound_narrowing_needs_range_refuted.
+
+(* the repaired defect (DESIGN §5-29) as a statement about the definition BEFORE f11c5d40d (Pruner.Old):
+   deprecated, signed-order statistics of a UINT_32 row group {1, 3000000000, 7}: valid statistics, the
+   group was pruned for `a = 1`, and it contains 1; the current definition never prunes on them *)
+Theorem C11_old_prune_sound_unconditional_refuted :
+  exists lt o st cs vs cell,
+    Old.should_prune lt st cs = Ok true /\ stats_describe o st vs /\ In cell vs /\ passes lt cell cs.
+Proof. exact old_prune_sound_unconditional_refuted. Qed.
+Print Assumptions C11_old_prune_sound_unconditional_refuted.
+
+Theorem C11_w29_now :
   from_thrift (mk_ts (Some 7%Z) (Some (-1294967296)%Z) (Some 0%Z) None None) = Ok st_w29 /\
-  ~ conv_monotone_on u32 OSigned st_w29.
-Proof. exact (conj st_w29_from_thrift w29_not_monotone). Qed.
-Print Assumptions C11_w29_from_thrift_and_not_monotone.
+  ~ conv_monotone_on u32 OSigned st_w29 /\
+  (forall cs, should_prune u32 st_w29 cs = Ok false).
+Proof. exact (conj st_w29_from_thrift (conj w29_not_monotone w29_not_pruned_now)). Qed.
+Print Assumptions C11_w29_now.
+
+Theorem C11_should_prune_implies_old : forall lt st cs,
+  should_prune lt st cs = Ok true -> Old.should_prune lt st cs = Ok true.
+Proof. exact should_prune_implies_old. Qed.
+Print Assumptions C11_should_prune_implies_old.
 
 Theorem C11_null_constant_order_dependent :
   should_prune i32 st_ex [CVal (KInt i32) 7; CNull] = Ok true /\
